@@ -330,7 +330,9 @@ class PartBuilder:
                         used_t = self._tempo_times = set()
                     if t not in used_t:          # one tempo indication per position
                         used_t.add(t)
-                        part.add(S.Tempo(rng.choice([60, 72, 90, 120]), "q"), t)
+                        # (in quarters, or in another unit whose quarter value is not a whole number: 63 eighths are 31.5 quarters)
+                        bpm_, unit_ = rng.choice([(60, "q"), (72, "q"), (90, "q"), (120, "q"), (63, "e"), (45, "e"), (50, "h")])
+                        part.add(S.Tempo(bpm_, unit_), t)
                 elif kind == "words":
                     # text directions lie in the image of the importer's direction parser
                     from partitura.directions import parse_direction
